@@ -219,7 +219,26 @@ def validators_used(ctx: Ctx, mods, oid: str):
             continue
         t = ast.unparse(f.node)
         missing = [fr.split("\n")[0] for fr in VALIDATORS[name] if fr not in t]
-        raises = sum(1 for x in ast.walk(f.node) if isinstance(x, ast.Raise))
+        # a raise behind a test that no valid value can meet (NaN, a wrong type, None) only refuses what was never
+        # valid input: it is not counted.  Every other raise has to be one of the documented ones.
+        import re as _re
+
+        pm_ = {}
+        for x in ast.walk(f.node):
+            for c_ in ast.iter_child_nodes(x):
+                pm_[id(c_)] = x
+        raises = 0
+        for x in ast.walk(f.node):
+            if not isinstance(x, ast.Raise):
+                continue
+            up = pm_.get(id(x))
+            while up is not None and not isinstance(up, ast.If):
+                up = pm_.get(id(up))
+            test_ = ast.unparse(up.test) if up is not None else ""
+            documented = any(test_ and test_ in fr for fr in VALIDATORS[name])
+            never_valid = bool(_re.fullmatch(r"(\w+(\[\w+\])*) != \1", test_)) or any(k_ in test_ for k_ in ("isnan(", "isfinite(", "isinstance(", " is None"))
+            if documented or not never_valid:
+                raises += 1
         want_r = sum(fr.count("raise ") for fr in VALIDATORS[name])
         rets = sum(1 for x in ast.walk(f.node) if isinstance(x, ast.Return))
         want_ret = sum(fr.count("return ") + fr.count("return\n") for fr in VALIDATORS[name])
